@@ -19,6 +19,7 @@ pub struct SeqCfg {
     pub compare: Compare,
     pub check_cost: bool,
     pub compare_board: bool,
+    pub lenient: bool,
 }
 
 pub fn edge_of(detail: &str) -> Option<u32> {
@@ -40,6 +41,7 @@ pub fn run_seq(
     ls.compare = cfg.compare;
     ls.check_cost = cfg.check_cost;
     ls.compare_board = cfg.compare_board;
+    ls.lenient = cfg.lenient;
     let mut next_ev = 0usize;
     let mut deferred: Vec<Stim> = vec![];
     let mut t: u32 = 0;
